@@ -20,8 +20,8 @@ META = {
     "level_note": "Selector-enumerated (CrossHair picks the configuration, the real code runs concretely). Member sources are MemorySources. "
                   "Graphs with more than 2 relationships / 3 nodes and more than 3 members are outside the claim.",
     "technique": "CrossHair-driven bounded enumeration of member assignments / relationship graphs on the real composite and navigation code vs a "
-                 "scan model; counterexamples replayed natively",
-    "outside": ["Environment equivalence scoring", "object factory defaults", "graphs > 2 relationships", "TAXII/FileSystem members (C11/C12 cover FS)"],
+                 "scan model; AST-to-SMT interpretation (pysym, z3) of the composite's choice of the latest answer; counterexamples replayed natively",
+    "outside": ["Environment equivalence scoring", "graphs > 2 relationships", "TAXII/FileSystem members (C11/C12 cover FS)"],
     "assumptions": [],
 }
 
